@@ -508,6 +508,9 @@ def run(chk):
     d5(chk, prog)
     d6(chk, prog)
     d7(chk, prog)
+    chk.clause("D8", "a segment's variants are looked up on the segment's own chromosome: the pairing of by_shared_chroms (C07-D6 rule; a one-chromosome segment table against a genome-wide VCF)")
+    from . import C07
+    C07.d6(chk, prog)
     chk.clause("CLI", "the `call` / `segment` command lines: -v, -i, -n, --min-variant-depth, -z reach load_het_snps as given")
     from .. import cliglue
     cliglue.check_call(chk, prog)
